@@ -3,7 +3,8 @@
 * ``Req``       - the one table of the harness catalogue (rid, x, delay | label)
 * ``Feed``      - training rows whose label is the constant the model is to learn; serving entries go through the
                   stock ``io.Feed.Reader`` (so that a missing feature column raises the documented ``MissingError``)
-* ``Delay``     - stateless pipeline actor sleeping the largest ``delay`` (ms) carried by the payload rows
+* ``Delay``     - stateless pipeline actor sleeping half of the largest ``delay`` (ms) carried by the payload rows; the
+                  other half is slept by the first branch of the 3-way fan-out behind it
 * ``Const``     - stateful pipeline actor: learns ``K = labels[0]``; answers ``(rid, K * SCALE + x)`` per row
 * ``Inventory`` - in-memory application inventory whose ``list()/get()`` sleep a configurable time
 """
@@ -72,7 +73,7 @@ class Delay(flow.Actor):
         rows = [tuple(int(v) for v in r) for r in rows]
         wait = max((r[2] for r in rows), default=0)
         if wait > 0:
-            time.sleep(wait / 1000.0)
+            time.sleep(wait / 2000.0)  # the other half is slept inside the first branch of the fan-out (Pick)
         return rows
 
 
@@ -83,6 +84,12 @@ class Pick(flow.Actor):
         self._column = column
 
     def apply(self, rows):  # pylint: disable=arguments-differ
+        if self._column == 0:
+            # half of the request's processing time passes *between* the branches of the fan-out, so that requests
+            # overlapping inside one model evaluate it in interleaved fashion if anything lets them (seeded change C16-8)
+            wait = max((r[2] for r in rows), default=0)
+            if wait > 0:
+                time.sleep(wait / 2000.0)
         return [r[self._column] for r in rows]
 
 
